@@ -570,7 +570,12 @@ impl<'p> Machine<'p> {
                     }
                 }
                 if !self.guided {
+                    let last = *self.g.mo[a as usize].last().unwrap();
                     for w in self.read_candidates(t, a, fo, None, false) {
+                        // deviation K5: loom treats a failing CAS like an RMW too (reads the latest store only)
+                        if self.cfg.rmw_reads_mo_max_only && w != last {
+                            continue;
+                        }
                         if self.g.evs[w].wval != e {
                             cands.push((w, false));
                         }
